@@ -235,3 +235,89 @@ def check_clone(H, a, b, tag="clone"):
         return
     for name in CLONE_INT_FIELDS:
         H.check(f"{tag}.{name}", H.eq(getattr(b, name), getattr(a, name)))
+
+
+# ------------------------------------------------------------------------------- type-specific payloads
+
+_ARRAY_RANGE = {"B": (0, 255), "H": (0, 65535), "b": (-128, 127), "h": (-32768, 32767), "I": U32, "i": I32}
+
+
+def _array_attrs(m):
+    """(attribute name, ArrayChunk) pairs of plain integer arrays on the module."""
+    from rv.chunks import ArrayChunk
+
+    out = []
+    for k, v in vars(m).items():
+        if isinstance(v, ArrayChunk) and isinstance(v.type, str) and len(v.type) == 1 and v.type in _ARRAY_RANGE:
+            out.append((k, v))
+    return out
+
+
+def sym_payload(H, m, pfx="pl.", variant=None):
+    """Make the type-specific payload of `m` symbolic within its element types.  Returns a list of
+    human-readable notes about parts that stay concrete (bounded parts)."""
+    from rv.modules.analoggenerator import AnalogGenerator
+    from rv.modules.generator import Generator
+    from rv.modules.multictl import MultiCtl
+    from rv.modules.spectravoice import SpectraVoice
+    from rv.modules.vorbisplayer import VorbisPlayer
+
+    notes = []
+    for attr, arr in _array_attrs(m):
+        lo, hi = _ARRAY_RANGE[arr.type]
+        if isinstance(m, SpectraVoice) and attr == "harmonic_types":
+            continue
+        arr.values = [H.int(f"{pfx}{attr}[{i}]", lo, hi) for i in range(arr.length)]
+    if isinstance(m, SpectraVoice):
+        # enum-typed array: one element case-split at a time
+        i = variant if isinstance(variant, int) else 0
+        m.harmonic_types.values[i] = H.enum(f"{pfx}harmonic_types[{i}]", SpectraVoice.HarmonicType)
+        for h in m.harmonics:
+            h._freq_hz = m.harmonic_freqs.values[h.index]
+            h._volume = m.harmonic_volumes.values[h.index]
+            h._width = m.harmonic_widths.values[h.index]
+            h._type = m.harmonic_types.values[h.index]
+    if isinstance(m, (AnalogGenerator, Generator)):
+        m.drawn_waveform.samples = [H.int(f"{pfx}wave[{i}]", -128, 127) for i in range(32)]
+    if isinstance(m, MultiCtl):
+        for i, mp in enumerate(m.mappings.values):
+            for f in ("min", "max", "controller", "flags", "future_use2", "future_use3", "future_use4", "future_use5"):
+                setattr(mp, f, H.int(f"{pfx}map[{i}].{f}", *U32))
+    if isinstance(m, VorbisPlayer):
+        n = variant if isinstance(variant, int) else 5
+        m.data = H.bytes(pfx + "data", n) if n else None
+    return notes
+
+
+def check_payload(H, m, q, tag="payload"):
+    from rv.modules.analoggenerator import AnalogGenerator
+    from rv.modules.generator import Generator
+    from rv.modules.multictl import MultiCtl
+    from rv.modules.spectravoice import SpectraVoice
+    from rv.modules.vorbisplayer import VorbisPlayer
+
+    for attr, arr in _array_attrs(m):
+        H.check(f"{tag}.{attr}", H.eq(list(getattr(q, attr).values), list(arr.values)))
+    if isinstance(m, SpectraVoice):
+        H.check(f"{tag}.harmonic_types", H.eq(list(q.harmonic_types.values), list(m.harmonic_types.values)))
+        H.check(f"{tag}.harmonics", H.eq(
+            [(h.freq_hz, h.volume, h.width, h.type) for h in q.harmonics],
+            [(h.freq_hz, h.volume, h.width, h.type) for h in m.harmonics]))
+    if isinstance(m, (AnalogGenerator, Generator)):
+        H.check(f"{tag}.drawn_waveform", H.eq(list(q.drawn_waveform.samples), list(m.drawn_waveform.samples)))
+    if isinstance(m, MultiCtl):
+        fs = ("min", "max", "controller", "flags", "future_use2", "future_use3", "future_use4", "future_use5")
+        H.check(f"{tag}.mappings", H.eq([[getattr(x, f) for f in fs] for x in q.mappings.values],
+                                        [[getattr(x, f) for f in fs] for x in m.mappings.values]))
+    if isinstance(m, VorbisPlayer):
+        H.check(f"{tag}.data", H.eq(q.data if q.data else b"", m.data if m.data is not None else b""))
+
+
+def payload_variants(cls, tier):
+    """Case-split parameter for payloads that cannot be all-symbolic at once."""
+    name = cls.__name__
+    if name == "SpectraVoice":
+        return [0, 15] if tier == "quick" else list(range(16))
+    if name == "VorbisPlayer":
+        return [0, 1, 5] if tier == "quick" else [0, 1, 2, 5, 64]
+    return [None]
